@@ -20,22 +20,40 @@ func init() {
 	intrinsics = map[string]intrinsic{
 		"(" + modPrefix + "errs.Code).F": intrCodeF,
 		// sequential model: locks are no-ops (assumption: no other goroutine touches the state)
-		"regexp.Compile":          intrRegexpCompile,
-		"(*sync.Once).Do":         intrOnceDo,
-		"strconv.Quote":           intrStrconvQuote,
-		"unicode/utf8.DecodeRune": intrDecodeRune,
-		"strconv.Itoa":            intrFreshString,
-		"strconv.FormatUint":      intrFormatUint,
-		"strconv.FormatInt":       intrFreshString,
-		"strconv.FormatBool":      intrFreshString,
-		"fmt.Sprintf":             intrFreshString,
-		"strings.Repeat":          intrStringsRepeat,
-		"(*sync.RWMutex).Lock":    intrNoop,
-		"(*sync.RWMutex).Unlock":  intrNoop,
-		"(*sync.RWMutex).RLock":   intrNoop,
-		"(*sync.RWMutex).RUnlock": intrNoop,
-		"(*sync.Mutex).Lock":      intrNoop,
-		"(*sync.Mutex).Unlock":    intrNoop,
+		"regexp.Compile":              intrRegexpCompile,
+		"encoding/json.Marshal":       intrJSONMarshal,
+		"(*sync.Pool).Get":            intrPoolGet,
+		"(*sync.Pool).Put":            intrPoolPut,
+		"bytes.NewBuffer":             intrNewBuffer,
+		"bytes.Trim":                  intrBytesSubslice,
+		"bytes.TrimSpace":             intrBytesSubslice,
+		"bytes.TrimLeft":              intrBytesSubslice,
+		"bytes.TrimRight":             intrBytesSubslice,
+		"bytes.TrimPrefix":            intrBytesSubslice,
+		"bytes.TrimSuffix":            intrBytesSubslice,
+		"(*bytes.Buffer).Reset":       intrBufNoGrow,
+		"(*bytes.Buffer).Len":         intrBufLen,
+		"(*bytes.Buffer).Bytes":       intrBufBytes,
+		"(*bytes.Buffer).String":      intrBufString,
+		"(*bytes.Buffer).Write":       intrBufWrite,
+		"(*bytes.Buffer).WriteByte":   intrBufWrite,
+		"(*bytes.Buffer).WriteString": intrBufWrite,
+		"(*bytes.Buffer).WriteRune":   intrBufWrite,
+		"(*sync.Once).Do":             intrOnceDo,
+		"strconv.Quote":               intrStrconvQuote,
+		"unicode/utf8.DecodeRune":     intrDecodeRune,
+		"strconv.Itoa":                intrFreshString,
+		"strconv.FormatUint":          intrFormatUint,
+		"strconv.FormatInt":           intrFreshString,
+		"strconv.FormatBool":          intrFreshString,
+		"fmt.Sprintf":                 intrFreshString,
+		"strings.Repeat":              intrStringsRepeat,
+		"(*sync.RWMutex).Lock":        intrNoop,
+		"(*sync.RWMutex).Unlock":      intrNoop,
+		"(*sync.RWMutex).RLock":       intrNoop,
+		"(*sync.RWMutex).RUnlock":     intrNoop,
+		"(*sync.Mutex).Lock":          intrNoop,
+		"(*sync.Mutex).Unlock":        intrNoop,
 	}
 	intrinsicWrites["("+modPrefix+"errs.Code).F"] = []string{"F errs.Err.Code_", "F errs.Err.message"}
 }
@@ -148,6 +166,17 @@ func intrStringsRepeat(f *Frame, callee *ssa.Function, args []Val, pc string, st
 	return Val{T: r, Typ: callee.Signature.Results().At(0).Type()}, pc
 }
 
+// bytes.Trim & co: assumed pure and panic-free; the result is nil or a sub-slice of the first argument
+func intrBytesSubslice(f *Frame, callee *ssa.Function, args []Val, pc string, st *State, ins ssa.Value) (Val, string) {
+	vc := f.vc
+	rt := callee.Signature.Results().At(0).Type()
+	r := vc.freshConst("trimmed", "Slice")
+	s := args[0].T
+	vc.assert(vc.typed(r, rt, 1))
+	vc.assert(fmt.Sprintf("(or (and (= (arr %s) 0) (= (len %s) 0)) (and (= (arr %s) (arr %s)) (>= (off %s) (off %s)) (<= (+ (off %s) (len %s)) (+ (off %s) (len %s)))))", r, r, r, s, r, s, r, r, s, s))
+	return Val{T: r, Typ: rt}, pc
+}
+
 // utf8.DecodeRune(p) (rune, size): assumed panic-free, size in 0..4, rune in the int32 range
 func intrDecodeRune(f *Frame, callee *ssa.Function, args []Val, pc string, st *State, ins ssa.Value) (Val, string) {
 	vc := f.vc
@@ -156,4 +185,223 @@ func intrDecodeRune(f *Frame, callee *ssa.Function, args []Val, pc string, st *S
 	sz := vc.freshConst("runesize", "Int")
 	vc.assert(fmt.Sprintf("(and (<= 0 %s) (<= %s 1114111) (<= 0 %s) (<= %s 4))", r, r, sz, sz))
 	return Val{Tuple: []Val{{T: r, Typ: res.At(0).Type()}, {T: sz, Typ: res.At(1).Type()}}, Typ: res}, pc
+}
+
+// ---- sync.Pool and bytes.Buffer: ownership model for C10 -------------------------------------------------
+// Ghost components (all monotone: they only ever gain freshly allocated members):
+//   "Pool.bufs"   (Array Int Bool): the *bytes.Buffer belongs to the pool subsystem (came out of a sync.Pool);
+//   "Pool.arrays" (Array Int Bool): the byte array is (or was) the backing array of such a buffer;
+//   "Buf.arr"     (Array Int Int) : identity of the current backing array of a *bytes.Buffer.
+// Global invariant (assumed of the entry state, re-established by every operation below):
+//   a pool buffer's backing array is nil or a pool array; pool arrays and pool buffers are allocated objects.
+// Assumed: Pool.Get returns a *bytes.Buffer of the subsystem; Buffer writes keep the backing array or move
+// to a fresh one; Bytes() aliases the backing array; none of them panics (memory is unbounded).
+
+const poolBufsComp = "Pool.bufs"
+const poolArraysComp = "Pool.arrays"
+const bufArrComp = "Buf.arr"
+
+func bufferPtrType(f *Frame) types.Type {
+	for _, pk := range f.vc.prog.prog.AllPackages() {
+		if pk.Pkg.Path() == "bytes" {
+			return types.NewPointer(pk.Pkg.Scope().Lookup("Buffer").Type())
+		}
+	}
+	unsup("package bytes not loaded")
+	return nil
+}
+
+// poolComps returns the current terms of the three components, declaring them (with the global invariant
+// on their entry versions) on first use.
+func (vc *VC) poolComps(st *State) (bufs, arrays, ba string) {
+	first := !vc.declared[q("H0 "+bufArrComp)]
+	ba = vc.comp(st, bufArrComp, "(Array Int Int)")
+	bufs = vc.comp(st, poolBufsComp, "(Array Int Bool)")
+	arrays = vc.comp(st, poolArraysComp, "(Array Int Bool)")
+	if first {
+		vc.poolWF(q("H0 "+poolBufsComp), q("H0 "+poolArraysComp), q("H0 "+bufArrComp), q("alloc0"))
+	}
+	return
+}
+
+func (vc *VC) bufArr(st *State) string {
+	_, _, ba := vc.poolComps(st)
+	return ba
+}
+
+func (vc *VC) poolWF(bufs, arrays, ba, alloc string) {
+	vc.assert(fmt.Sprintf("(forall ((b Int)) (! (and (<= 0 (select %s b)) (< (select %s b) %s) (=> (select %s b) (and (< b %s) (or (= (select %s b) 0) (select %s (select %s b)))))) :pattern ((select %s b))))", ba, ba, alloc, bufs, alloc, ba, arrays, ba, ba))
+	vc.assert(fmt.Sprintf("(forall ((r Int)) (! (=> (select %s r) (and (< 0 r) (< r %s))) :pattern ((select %s r))))", arrays, alloc, arrays))
+}
+
+// isBufferPool: the receiver is the pool field of an internal/sync.BufferPool (whose New makes
+// *bytes.Buffer values); any other sync.Pool is modelled generically (Get returns an unknown value).
+func isBufferPool(v Val) bool {
+	if v.Loc == nil || v.Loc.Kind != LocField || v.Loc.Base == nil {
+		return false
+	}
+	return strings.HasSuffix(typeName(v.Loc.Base.Typ), "internal/sync.BufferPool")
+}
+
+func intrPoolGet(f *Frame, callee *ssa.Function, args []Val, pc string, st *State, ins ssa.Value) (Val, string) {
+	vc := f.vc
+	if !isBufferPool(args[0]) {
+		return Val{T: vc.freshConst("poolget", "Iface"), Typ: callee.Signature.Results().At(0).Type()}, pc
+	}
+	bufs, arrays, ba := vc.poolComps(st)
+	// the buffer is an existing pool buffer or a new one with a new backing array
+	r := vc.freshConst("pooled", "Int")
+	farr := vc.freshConst("pool.arr", "Int")
+	na := vc.freshConst("alloc", "Int")
+	isNew := vc.define("pool.new", "Bool", fmt.Sprintf("(>= %s %s)", r, st.alloc))
+	vc.assert(fmt.Sprintf("(and (>= %s 1) (or %s (select %s %s)) (> %s %s) (< %s %s) (>= %s %s) (> %s %s))", r, isNew, bufs, r, farr, r, farr, na, na, st.alloc, na, r))
+	st.alloc = na
+	for _, k := range []string{poolBufsComp, poolArraysComp, bufArrComp} {
+		f.noteCompSt(st, k)
+	}
+	st.heap[poolBufsComp] = vc.define("h", "(Array Int Bool)", fmt.Sprintf("(store %s %s true)", bufs, r))
+	st.heap[bufArrComp] = vc.define("h", "(Array Int Int)", fmt.Sprintf("(store %s %s (ite %s %s (select %s %s)))", ba, r, isNew, farr, ba, r))
+	st.heap[poolArraysComp] = vc.define("h", "(Array Int Bool)", fmt.Sprintf("(store %s %s (or %s (select %s %s)))", arrays, farr, isNew, arrays, farr))
+	vc.poolWF(st.heap[poolBufsComp], st.heap[poolArraysComp], st.heap[bufArrComp], na)
+	vc.nonNil[r] = true
+	bt := bufferPtrType(f)
+	return Val{T: f.box(Val{T: r, Typ: bt}, bt), Typ: callee.Signature.Results().At(0).Type()}, pc
+}
+
+func intrPoolPut(f *Frame, callee *ssa.Function, args []Val, pc string, st *State, ins ssa.Value) (Val, string) {
+	vc := f.vc
+	if !isBufferPool(args[0]) {
+		return Val{}, pc
+	}
+	bufs, _, _ := vc.poolComps(st)
+	bt := bufferPtrType(f)
+	_, unbox := vc.boxFns(bt)
+	// only buffers that came out of a pool go back into one (otherwise a caller-owned array would join
+	// the subsystem)
+	f.must(pc, "poolput", posOf(ins, f), fmt.Sprintf("(select %s (%s %s))", bufs, unbox, args[1].T), "the buffer put into the pool came out of a pool")
+	return Val{}, pc
+}
+
+func intrNewBuffer(f *Frame, callee *ssa.Function, args []Val, pc string, st *State, ins ssa.Value) (Val, string) {
+	vc := f.vc
+	_, _, ba := vc.poolComps(st)
+	r := f.newRef(st, "Buffer")
+	f.noteCompSt(st, bufArrComp)
+	st.heap[bufArrComp] = vc.define("h", "(Array Int Int)", fmt.Sprintf("(store %s %s (arr %s))", ba, r, args[0].T))
+	return Val{T: r, Typ: callee.Signature.Results().At(0).Type()}, pc
+}
+
+func bufRecv(f *Frame, args []Val, pc string, ins ssa.Value) string {
+	b := f.ptrTerm(args[0])
+	f.nilCheck(b, pc, posOf(ins, f))
+	return b
+}
+
+func intrBufNoGrow(f *Frame, callee *ssa.Function, args []Val, pc string, st *State, ins ssa.Value) (Val, string) {
+	bufRecv(f, args, pc, ins)
+	return Val{}, pc
+}
+
+func intrBufLen(f *Frame, callee *ssa.Function, args []Val, pc string, st *State, ins ssa.Value) (Val, string) {
+	bufRecv(f, args, pc, ins)
+	n := f.vc.freshConst("buflen", "Int")
+	f.vc.assert(fmt.Sprintf("(and (<= 0 %s) (<= %s 281474976710656))", n, n))
+	return Val{T: n, Typ: callee.Signature.Results().At(0).Type()}, pc
+}
+
+func intrBufString(f *Frame, callee *ssa.Function, args []Val, pc string, st *State, ins ssa.Value) (Val, string) {
+	bufRecv(f, args, pc, ins)
+	return Val{T: f.vc.freshConst("bufstr", "Str"), Typ: callee.Signature.Results().At(0).Type()}, pc
+}
+
+func intrBufBytes(f *Frame, callee *ssa.Function, args []Val, pc string, st *State, ins ssa.Value) (Val, string) {
+	vc := f.vc
+	b := bufRecv(f, args, pc, ins)
+	ba := vc.bufArr(st)
+	rt := callee.Signature.Results().At(0).Type()
+	sl := vc.freshConst("bufbytes", "Slice")
+	vc.assert(vc.typed(sl, rt, 1))
+	vc.assert(fmt.Sprintf("(= (arr %s) (select %s %s))", sl, ba, b))
+	return Val{T: sl, Typ: rt}, pc
+}
+
+func intrBufWrite(f *Frame, callee *ssa.Function, args []Val, pc string, st *State, ins ssa.Value) (Val, string) {
+	vc := f.vc
+	b := bufRecv(f, args, pc, ins)
+	bufs, arrays, ba := vc.poolComps(st)
+	fresh := f.newRef(st, "bufgrow")
+	na := vc.freshConst("bufarr", "Int")
+	vc.assert(fmt.Sprintf("(or (and (= %s (select %s %s)) (not (= %s 0))) (= %s %s))", na, ba, b, na, na, fresh))
+	for _, k := range []string{poolArraysComp, bufArrComp} {
+		f.noteCompSt(st, k)
+	}
+	st.heap[bufArrComp] = vc.define("h", "(Array Int Int)", fmt.Sprintf("(store %s %s %s)", ba, b, na))
+	st.heap[poolArraysComp] = vc.define("h", "(Array Int Bool)", fmt.Sprintf("(store %s %s (or (select %s %s) (select %s %s)))", arrays, na, bufs, b, arrays, na))
+	vc.poolWF(bufs, st.heap[poolArraysComp], st.heap[bufArrComp], st.alloc)
+	// the content of the backing array changes
+	et := types.Typ[types.Uint8]
+	cn := elemComp(et)
+	E := vc.comp(st, cn, vc.elemCompSort(et), et)
+	f.noteCompSt(st, cn)
+	st.heap[cn] = vc.define("h", vc.compSorts[cn], fmt.Sprintf("(store %s %s %s)", E, na, vc.freshConst("bufcontent", "(Array Int Int)")))
+	res := callee.Signature.Results()
+	switch res.Len() {
+	case 1: // WriteByte: error (always nil)
+		return Val{T: "nil_iface", Typ: res.At(0).Type()}, pc
+	case 2: // (n int, err error)
+		n := vc.freshConst("written", "Int")
+		vc.assert(fmt.Sprintf("(and (<= 0 %s) (<= %s 281474976710656))", n, n))
+		return Val{Tuple: []Val{{T: n, Typ: res.At(0).Type()}, {T: "nil_iface", Typ: res.At(1).Type()}}, Typ: res}, pc
+	}
+	return Val{}, pc
+}
+
+// poolHavoc: an unknown computation that may use pools: the subsystem gains only freshly allocated buffers
+// and arrays; byte arrays outside the subsystem keep their content.
+func (f *Frame) poolHavoc(st *State) {
+	vc := f.vc
+	bufs, arrays, _ := vc.poolComps(st)
+	et := types.Typ[types.Uint8]
+	ek := elemComp(et)
+	E := vc.comp(st, ek, vc.elemCompSort(et), et)
+	preAlloc := st.alloc
+	na := vc.freshConst("alloc", "Int")
+	vc.assert(fmt.Sprintf("(>= %s %s)", na, st.alloc))
+	st.alloc = na
+	bufs2 := vc.freshConst("post "+poolBufsComp, "(Array Int Bool)")
+	arrays2 := vc.freshConst("post "+poolArraysComp, "(Array Int Bool)")
+	ba2 := vc.freshConst("post "+bufArrComp, "(Array Int Int)")
+	E2 := vc.freshConst("post "+ek, vc.compSorts[ek])
+	vc.assert(fmt.Sprintf("(forall ((b Int)) (! (=> (< b %s) (= (select %s b) (select %s b))) :pattern ((select %s b))))", preAlloc, bufs2, bufs, bufs2))
+	vc.assert(fmt.Sprintf("(forall ((r Int)) (! (=> (< r %s) (= (select %s r) (select %s r))) :pattern ((select %s r))))", preAlloc, arrays2, arrays, arrays2))
+	vc.assert(fmt.Sprintf("(forall ((r Int)) (! (=> (and (< r %s) (not (select %s r))) (= (select %s r) (select %s r))) :pattern ((select %s r))))", preAlloc, arrays, E2, E, E2))
+	for _, k := range []string{poolBufsComp, poolArraysComp, bufArrComp, ek} {
+		f.noteCompSt(st, k)
+	}
+	st.heap[poolBufsComp] = bufs2
+	st.heap[poolArraysComp] = arrays2
+	st.heap[bufArrComp] = ba2
+	st.heap[ek] = E2
+	vc.poolWF(bufs2, arrays2, ba2, na)
+	vc.assertCompWF(E2, ek, na)
+}
+
+// encoding/json.Marshal(v): assumed to return a freshly allocated byte slice (or an error) and to behave
+// like poolHavoc with respect to pools (nested MarshalJSON methods of this module use the buffer pools).
+func intrJSONMarshal(f *Frame, callee *ssa.Function, args []Val, pc string, st *State, ins ssa.Value) (Val, string) {
+	vc := f.vc
+	res := callee.Signature.Results()
+	f.poolHavoc(st)
+	sl := vc.freshConst("marshalled", "Slice")
+	vc.assert(vc.typed(sl, res.At(0).Type(), 1))
+	id := f.newRef(st, "marshal")
+	vc.assert(fmt.Sprintf("(or (= (arr %s) 0) (= (arr %s) %s))", sl, sl, id))
+	errv := vc.freshConst("marshalerr", "Iface")
+	return Val{Tuple: []Val{{T: sl, Typ: res.At(0).Type()}, {T: errv, Typ: res.At(1).Type()}}, Typ: res}, pc
+}
+
+// poolArrayAt: array id r belongs to the pool subsystem in state st
+func (vc *VC) poolArrayAt(st *State, r string) string {
+	_, arrays, _ := vc.poolComps(st)
+	return fmt.Sprintf("(select %s %s)", arrays, r)
 }
